@@ -421,3 +421,149 @@ T("C05", "twin-keys-reordered", (SER, """        "name": gate.name,
         "exponent": gate.exponent,""", """        "exponent": gate.exponent,
         "name": gate.name,
         "wrapped_gate": to_dict(gate.wrapped_gate),"""))
+
+# ----------------------------------------------------------------------------- C11
+UTL = "utils.py"
+EXV = "measurements/expectation_values.py"
+PAR = "measurements/parities.py"
+LAY = "circuits/layouts.py"
+B("C11", "nmeas-frame-meas-required-again", (UTL, """    frame_meas = (
+        convert_dict_to_array(data["frame_meas"]) if "frame_meas" in data else None
+    )""", """    frame_meas = convert_dict_to_array(data["frame_meas"])"""), rule="C11-D1")
+B("C11", "nmeas-path-only", (UTL, "    with ensure_open(filename) as f:\n        data = json.load(f)\n\n    frame_meas", "    with open(filename, \"r\") as f:\n        data = json.load(f)\n\n    frame_meas"), rule="C11-D2")
+B("C11", "parser-rejects-bare-identity", (OPS, 'match = re.match(r"([XYZ])([0-9]+)$|(I)([0-9]*)$", op_str, re.I)', 'match = re.match(r"([XYZI])([0-9]+)$", op_str, re.I)'), rule="C11-D3")
+B("C11", "printer-rounds-coefficient", (OPS, """        return f"{self.coefficient}*{'*'.join(term_strs)}\"""", """        return f"{round(self.coefficient, 6)}*{'*'.join(term_strs)}\""""), rule="C11-D3")
+B("C11", "printer-new-token-shape", (OPS, 'term_strs = [f"{self[index]}{index}" for index in self._ops]', 'term_strs = [f"{self[index]}_{index}" for index in self._ops]'), rule="C11-D3")
+B("C11", "covariances-nested-under-correlations", (EXV, """        if self.estimator_covariances:
+            data["estimator_covariances"] = []
+            for covariance_matrix in self.estimator_covariances:
+                data["estimator_covariances"].append(
+                    convert_array_to_dict(covariance_matrix)
+                )
+""", """            if self.estimator_covariances:
+                data["estimator_covariances"] = []
+                for covariance_matrix in self.estimator_covariances:
+                    data["estimator_covariances"].append(
+                        convert_array_to_dict(covariance_matrix)
+                    )
+"""), rule="C11-D1g")
+B("C11", "expectation-values-key-renamed-on-reader", (EXV, 'expectation_values = convert_dict_to_array(dictionary["expectation_values"])', 'expectation_values = convert_dict_to_array(dictionary["values"])'), rule="C11-D1")
+B("C11", "parities-correlations-required", (PAR, """        if data.get("correlations"):
+            correlations: Optional[List] = [
+                convert_dict_to_array(arr) for arr in data["correlations"]
+            ]
+        else:
+            correlations = None""", """        correlations: Optional[List] = [
+            convert_dict_to_array(arr) for arr in data["correlations"]
+        ]"""), rule="C11-D1")
+B("C11", "imag-part-never-written", (UTL, """        dictionary["real"] = array.real.tolist()
+        dictionary["imag"] = array.imag.tolist()""", """        dictionary["real"] = array.real.tolist()"""), rule="C11-D1")
+B("C11", "list-loader-path-only", (UTL, """    if isinstance(file, str):
+        with open(file, "r") as f:
+            data = json.load(f)
+    else:
+        data = json.load(file)  # type: ignore
+
+    return data["list"]""", """    with open(file, "r") as f:
+        data = json.load(f)
+
+    return data["list"]"""), rule="C11-D2")
+B("C11", "qubit-op-slots-swapped-on-writer", (OIO, '"pauli_ops": [{"qubit": op[0], "op": op[1]} for op in term.operations]', '"pauli_ops": [{"qubit": op[1], "op": op[0]} for op in term.operations]'), rule="C11-D4")
+B("C11", "imag-sign-flipped-on-read", (OIO, '            coefficient += 1j * term_dict["coefficient"]["imag"]', '            coefficient = coefficient.real'), rule="C11-D4")
+B("C11", "layers-tuples-not-restored", (LAY, '        layers = [[tuple(x) for x in layer] for layer in data["layers"]]', '        layers = [[x for x in layer] for layer in data["layers"]]'), rule="C11-D4")
+B("C11", "precision-dropped-by-writer", (UTL, """        if type(self.precision).__module__ == np.__name__:
+            data["precision"] = self.precision.item()
+        else:
+            data["precision"] = self.precision
+""", ""), rule="C11-D1")
+B("C11", "loader-uses-wrong-class", (PAR, "    return Parities.from_dict(data)", "    return data"), rule="C11-D2")
+T("C11", "twin-loader-ensure-open", (UTL, """    if isinstance(file, str):
+        with open(file, "r") as f:
+            data = json.load(f)
+    else:
+        data = json.load(file)  # type: ignore
+
+    return data["list"]""", """    with ensure_open(file) as f:
+        data = json.load(f)
+
+    return data["list"]"""))
+T("C11", "twin-reader-get-with-guard", (EXV, """        if dictionary.get("correlations"):
+            correlations = []
+            for correlation_matrix in cast(Iterable, dictionary.get("correlations")):""", """        if "correlations" in dictionary and dictionary["correlations"]:
+            correlations = []
+            for correlation_matrix in dictionary["correlations"]:"""))
+
+# ----------------------------------------------------------------------------- C12
+B("C12", "restore-line-deleted", (WF, "            self._amplitude_vector[idx] = old_val\n\n            raise ValueError", "            raise ValueError"), rule="C12-D2")
+B("C12", "alias-instead-of-snapshot", (WF, """        old_val = self._amplitude_vector[idx]
+        self._amplitude_vector[idx] = val
+""", """        old_val = self._amplitude_vector
+        self._amplitude_vector[idx] = val
+"""), rule="C12-D2")
+B("C12", "check-before-write", (WF, """        old_val = self._amplitude_vector[idx]
+        self._amplitude_vector[idx] = val
+
+        try:
+            self._check_normalization(self._amplitude_vector)
+        except ValueError:
+            self._amplitude_vector[idx] = old_val
+
+            raise ValueError("This assignment violates probability unity.")""", """        old_val = self._amplitude_vector[idx]
+        try:
+            self._check_normalization(self._amplitude_vector)
+        except ValueError:
+            self._amplitude_vector[idx] = old_val
+
+            raise ValueError("This assignment violates probability unity.")
+        self._amplitude_vector[idx] = val"""), rule="C12-D2")
+B("C12", "rejection-swallowed", (WF, """            self._amplitude_vector[idx] = old_val
+
+            raise ValueError("This assignment violates probability unity.")""", """            self._amplitude_vector[idx] = old_val
+            warn("This assignment violates probability unity.")"""), rule="C12-D2")
+B("C12", "constructor-check-dropped", (WF, "        self._check_normalization(self._amplitude_vector)\n\n    @property\n    def amplitudes", "    @property\n    def amplitudes"), rule="C12-D1")
+B("C12", "size-test-after-store", (WF, """        if bin(len(amplitude_vector)).count("1") != 1:
+            raise ValueError(
+                "Provided wavefunction does not have a size of a power of 2."
+            )
+
+        try:
+            self._amplitude_vector = np.asarray(amplitude_vector, dtype=complex)
+        except TypeError:
+            self._amplitude_vector = Matrix(amplitude_vector)
+""", """        try:
+            self._amplitude_vector = np.asarray(amplitude_vector, dtype=complex)
+        except TypeError:
+            self._amplitude_vector = Matrix(amplitude_vector)
+
+        if bin(len(amplitude_vector)).count("1") != 1:
+            warn("Provided wavefunction does not have a size of a power of 2.")
+"""), rule="C12-D1")
+B("C12", "bind-writes-field", (WF, """        try:
+            return type(self)(result)
+        except ValueError:
+            raise ValueError("Passed map results in a violation of probability unity.")""", """        self._amplitude_vector = result
+        return self"""), rule="C12-D3")
+B("C12", "bind-bypasses-constructor", (WF, "            return type(self)(result)\n", "            new = Wavefunction.__new__(Wavefunction)\n            new._amplitude_vector = result\n            return new\n"), rule="C12-D3")
+B("C12", "flip-writes-in-place", (WF, "    return Wavefunction(flip_amplitudes(wavefunction.amplitudes))", "    wavefunction._amplitude_vector = flip_amplitudes(wavefunction.amplitudes)\n    return wavefunction"), rule="C12-D3")
+B("C12", "probe-with-float", (WF, "        complex(possible_number)\n        return True", "        float(possible_number)\n        return True"), rule="C12-D4")
+B("C12", "symbolic-branch-nonstrict-wrong-bound", (WF, "            if probs_of_ground_entries > 1.0:", "            if probs_of_ground_entries > 2.0:"), rule="C12-D4")
+B("C12", "numeric-check-inverted", (WF, "            if not np.isclose(probs_of_ground_entries, 1.0):", "            if np.isclose(probs_of_ground_entries, 0.0):"), rule="C12-D4")
+B("C12", "probabilities-not-squared", (WF, "        return np.abs(self.amplitudes) ** 2", "        return np.abs(self.amplitudes)"), rule="C12-D4")
+B("C12", "amplitudes-key-renamed-on-load", (WF, '    wavefunction = Wavefunction(convert_dict_to_array(data["amplitudes"]))', '    wavefunction = Wavefunction(convert_dict_to_array(data["amplitude"]))'), rule="C12-D5")
+B("C12", "normalise-helper-in-getter", (WF, "    def get_probabilities(self) -> np.ndarray:\n        return", "    def get_probabilities(self) -> np.ndarray:\n        self._amplitude_vector /= np.linalg.norm(self._amplitude_vector)\n        return"), rule="C12-D3")
+T("C12", "twin-rename-saved-value", (WF, """        old_val = self._amplitude_vector[idx]
+        self._amplitude_vector[idx] = val
+
+        try:
+            self._check_normalization(self._amplitude_vector)
+        except ValueError:
+            self._amplitude_vector[idx] = old_val
+""", """        previous = self._amplitude_vector[idx]
+        self._amplitude_vector[idx] = val
+
+        try:
+            self._check_normalization(self._amplitude_vector)
+        except ValueError:
+            self._amplitude_vector[idx] = previous
+"""))
+T("C12", "twin-bind-named-class", (WF, "            return type(self)(result)\n", "            return Wavefunction(result)\n"))
